@@ -5343,10 +5343,15 @@ class PyCdlib:
         # Remove all of the DirectoryRecord/UDFFileEntries associated with
         # the Boot Catalog.
         for rec in self.eltorito_boot_catalog.dirrecords:
+            # A name of the Boot Catalog may have been hidden with
+            # rm_hard_link() already, in which case it is no longer part of
+            # its parent and there is nothing left to remove.
             if isinstance(rec, dr.DirectoryRecord):
-                num_bytes_to_remove += self._rm_dr_link(rec)
+                if rec.parent is not None and any(id(rec) == id(c) for c in rec.parent.children):
+                    num_bytes_to_remove += self._rm_dr_link(rec)
             elif isinstance(rec, udfmod.UDFFileEntry):
-                num_bytes_to_remove += self._rm_udf_link(rec)
+                if rec.parent is not None and any(id(rec) == id(fi.file_entry) for fi in rec.parent.fi_descs):
+                    num_bytes_to_remove += self._rm_udf_link(rec)
             else:
                 # This should never happen.
                 raise pycdlibexception.PyCdlibInternalError('Saw an El Torito record that was neither ISO nor UDF')
